@@ -288,8 +288,13 @@ class Known:
 # Check context: collects results, writes evidence, prints VIOLATION / KNOWN-FINDING lines
 # --------------------------------------------------------------------------------------------
 
+CURRENT_CTX = None   # the check in progress (bin/check reports its violations even if a later step fails)
+
+
 class Ctx:
     def __init__(self, prop, tier, level):
+        global CURRENT_CTX
+        CURRENT_CTX = self
         self.prop = prop
         self.tier = tier
         self.level = level
